@@ -233,6 +233,7 @@ IndInv ==
        /\ pc[p] \in Work => conn[p] \in walInos
        \* inside a transaction = inside the bootstrap write's critical section, holding the lock
        /\ txn[p] # "none" => (txn[p] = "write" /\ pc[p] = "commit")
+       /\ pc[p] = "commit" => txn[p] = "write"
   /\ \A g \in wlock : g.p \in PAll /\ opn[g.p] /\ conn[g.p] = g.ino /\ txn[g.p] = "write"
   /\ \A p \in PAll : txn[p] = "write" => [ino |-> conn[p], p |-> p] \in wlock
   /\ \A g1, g2 \in wlock : g1.ino = g2.ino => g1 = g2
@@ -246,6 +247,8 @@ NoInterestingState ==
 (* ------------------------------ instances ------------------------------ *)
 Ideal == BootSnap = FALSE /\ CommitSkipped = FALSE /\ ModeByCreatorOnly = FALSE
 ConstInit == Procs = Gen(4) /\ (\A p \in Procs : p > 0) /\ Ideal
+\* more workers (slower: minutes)
+ConstInitBig == Procs = Gen(6) /\ (\A p \in Procs : p > 0) /\ Ideal
 ConstInitBootSnap ==
   Procs = Gen(4) /\ (\A p \in Procs : p > 0) /\ BootSnap = TRUE /\ CommitSkipped = FALSE /\ ModeByCreatorOnly = FALSE
 ConstInitCommitSkipped ==
@@ -257,6 +260,17 @@ IndInit ==
   /\ pmain \in Int /\ nextIno \in Int
   /\ used = Gen(5) /\ tabInos = Gen(5) /\ walInos = Gen(5)
   /\ wlock = Gen(5)
+  /\ pc \in [PAll -> PCs]
+  /\ txn \in [PAll -> Txns]
+  /\ opn \in [PAll -> BOOLEAN]
+  /\ snapon \in [PAll -> BOOLEAN]
+  /\ conn \in [PAll -> Int]
+  /\ IndInv
+
+IndInitBig ==
+  /\ pmain \in Int /\ nextIno \in Int
+  /\ used = Gen(8) /\ tabInos = Gen(8) /\ walInos = Gen(8)
+  /\ wlock = Gen(8)
   /\ pc \in [PAll -> PCs]
   /\ txn \in [PAll -> Txns]
   /\ opn \in [PAll -> BOOLEAN]
